@@ -19,12 +19,14 @@ import (
 	"strconv"
 	"strings"
 	"sync"
+	"time"
 
 	"github.com/miekg/dns"
 	"github.com/semihalev/sdns/internal/mock"
 	"github.com/semihalev/sdns/internal/verif/vlib"
 	"github.com/semihalev/sdns/internal/wire"
 	"github.com/semihalev/sdns/middleware"
+	"github.com/semihalev/sdns/middleware/cache"
 )
 
 // ---------------------------------------------------------------- outcomes
@@ -206,6 +208,10 @@ func exec(op string) vlib.Res {
 		return execClone()
 	case "msg write":
 		return execWrite()
+	case "msg cache":
+		return execCache()
+	case "msg cachepair":
+		return execCachePair()
 	case "pool dirty":
 		return execDirty()
 	case "pool inspect":
@@ -525,6 +531,110 @@ func execWrite() vlib.Res {
 	return vlib.Res{Impl: path + ":" + got.String(), Oracle: or, Tags: "nt," + path}
 }
 
+// storableView is what cache admission documents it stores: header,
+// question, answer, authority and the additional section without its OPT
+// records, always compressed. Built here from an independent rebuild.
+func storableView(m *dns.Msg) *dns.Msg {
+	v := new(dns.Msg)
+	v.MsgHdr = m.MsgHdr
+	v.Question = m.Question
+	v.Answer = m.Answer
+	v.Ns = m.Ns
+	for _, rr := range m.Extra {
+		if _, ok := rr.(*dns.OPT); !ok {
+			v.Extra = append(v.Extra, rr)
+		}
+	}
+	v.Compress = true
+	return v
+}
+
+// admit runs the real cache admission and reports it as an outcome.
+func admit(m *dns.Msg, viaKey bool) (o outcome) {
+	defer func() {
+		if p := recover(); p != nil {
+			o = outcome{kind: "panic", msg: fmt.Sprint(p)}
+		}
+	}()
+	var e *cache.CacheEntry
+	if viaKey {
+		e = cache.NewCacheEntryWithKey(m, time.Minute, 0, 1)
+	} else {
+		e = cache.NewCacheEntry(m, time.Minute, 0)
+	}
+	if e == nil {
+		return outcome{kind: "err", msg: "not-admitted"}
+	}
+	return outcome{kind: "ok", b: cache.VerifC15EntryWire(e)}
+}
+
+// the bytes a cache entry keeps: NewCacheEntry / NewCacheEntryWithKey on the
+// current message vs the library's Pack of the storable view.
+func execCache() vlib.Res {
+	if cur == nil {
+		return vlib.Res{Impl: "bad-op"}
+	}
+	under, ref, pristine := rebuild(), rebuild(), rebuild()
+	want := libPack(storableView(ref.m))
+	if want.kind == "err" {
+		want.msg = "not-admitted"
+	}
+	got := admit(under.m, curSeed%2 == 0)
+	tags := []string{"nt", "cache"}
+	if under.ulen() > wire.VerifPackBufferSize {
+		tags = append(tags, "cache-big")
+	}
+	or := "ok"
+	switch {
+	case !same(got, want):
+		cls := got.kind + "-vs-" + want.kind
+		if got.kind == "ok" && want.kind == "ok" {
+			cls = "bytes-differ/" + diffClass(got.b, want.b)
+		}
+		or = fmt.Sprintf("FAIL sig=cache/stored-bytes-are-not-the-storable-view/%s got=%s want=%s", cls, got, want)
+	case got.kind != "panic" && !unchanged(under.m, pristine.m):
+		or = "FAIL sig=cache/message-mutated/" + mutationClass(under.m, pristine.m)
+	}
+	return vlib.Res{Impl: got.String(), Oracle: or, Tags: strings.Join(tags, ",")}
+}
+
+// the same response admitted twice: as it is (pooled packer) and with one
+// large trailing additional record that pushes it past the pooled buffer
+// (library fallback). Apart from ARCOUNT and that record the stored bytes
+// must be identical.
+func execCachePair() vlib.Res {
+	if cur == nil {
+		return vlib.Res{Impl: "bad-op"}
+	}
+	small, big, pristine := rebuild(), rebuild(), rebuild()
+	if !small.pure || small.ulen() > 3000 {
+		return vlib.Res{Impl: "skipped"}
+	}
+	var txt []string
+	for i := 0; i < 18; i++ {
+		txt = append(txt, strings.Repeat("z", 250))
+	}
+	pad := &dns.TXT{Hdr: dns.RR_Header{Name: "pad.invalid.", Rrtype: dns.TypeTXT, Class: dns.ClassINET, Ttl: 1}, Txt: txt}
+	big.m.Extra = append(big.m.Extra, pad)
+	pristineBig := rebuild()
+	pristineBig.m.Extra = append(pristineBig.m.Extra, dns.Copy(pad))
+	a, b := admit(small.m, true), admit(big.m, true)
+	or := "ok"
+	switch {
+	case a.kind != b.kind:
+		or = fmt.Sprintf("FAIL sig=cachepair/admission-depends-on-size small=%s big=%s", a, b)
+	case a.kind != "ok":
+		or = "-"
+	case len(b.b) < len(a.b) || !bytes.Equal(a.b[:10], b.b[:10]) || !bytes.Equal(a.b[12:], b.b[12:len(a.b)]):
+		or = fmt.Sprintf("FAIL sig=cachepair/entry-differs-by-packer-path small=%d big=%d bytes", len(a.b), len(b.b))
+	case int(b.b[10])<<8|int(b.b[11]) != (int(a.b[10])<<8|int(a.b[11]))+1:
+		or = "FAIL sig=cachepair/additional-count"
+	case !unchanged(small.m, pristine.m) || !unchanged(big.m, pristineBig.m):
+		or = "FAIL sig=cachepair/message-mutated"
+	}
+	return vlib.Res{Impl: a.String() + "|" + b.String(), Oracle: or, Tags: "nt,cache"}
+}
+
 const sentinel = 0xA5
 
 // a large message whose payload is the sentinel byte, packed through the
@@ -730,6 +840,12 @@ func gen(r *vlib.R, n int, tier string, emit func(string)) {
 		e("msg clone")
 		if r.Chance(1, 3) {
 			e("msg write")
+		}
+		if r.Chance(1, 2) {
+			e("msg cache")
+		}
+		if r.Chance(1, 8) {
+			e("msg cachepair")
 		}
 		if r.Chance(1, 4) {
 			e("pool dirty")
